@@ -18,7 +18,7 @@ func init() {
 	core.Register(&core.Check{
 		ID:    "C04",
 		Level: "model_checking",
-		Rule: "12 chain contexts ({.,@,$} x {plain,&,~,=}) x 3 call forms (property, literal, variable) x receivers (arrays of n<=3 (thorough 4) tagged elements, each in {value,nil-result,raise,nil element}; scalar receivers; " +
+		Rule: "12 chain contexts ({.,@,$} x {plain,&,~,=}) x 3 call forms (property, literal, variable) x receivers (arrays of n<=4 (thorough 5) tagged elements, each in {value,nil-result,raise,nil element}; scalar receivers; " +
 			"int/str/range/obj/map/iterator receivers with 3 callee variants) x chain argument {absent, [], {}, %{}} / initial accumulator {absent, given}; result and call trace compared with a chain model; " +
 			"non-trivial = at least one element whose result is nil or a raise, a nil element, or a chain argument; distinct = distinct source",
 		Assumptions: []string{
@@ -323,9 +323,9 @@ var forms = []string{"property", "literal", "variable"}
 var adds = []string{"", "&", "~", "="}
 
 func gen(thorough bool, emit func(tcase)) {
-	maxN := 3
+	maxN := 4
 	if thorough {
-		maxN = 4
+		maxN = 5
 	}
 	// scalar chains
 	for _, add := range adds {
